@@ -250,6 +250,151 @@ func runC02(c *Collector, r *Rng, thorough bool) {
 			}
 		}
 	}
+	// ---- every signing entry point x every initial state of the header buckets (nil maps, empty maps, alg present or
+	// to be inserted): the protected bytes handed to the signer are the protected bytes of the serialised message, and
+	// after the wire round trip the verifier is handed the same structure ----
+	for _, entry := range []string{"Sign1Message.Sign", "UntaggedSign1Message.Sign", "Sign1", "Sign1Untagged"} {
+		for hi, mk := range []func() cose.Headers{
+			func() cose.Headers { return cose.Headers{} },
+			func() cose.Headers { return cose.Headers{Protected: cose.ProtectedHeader{}} },
+			func() cose.Headers { return cose.Headers{Unprotected: cose.UnprotectedHeader{}} },
+			func() cose.Headers {
+				return cose.Headers{Protected: cose.ProtectedHeader{}, Unprotected: cose.UnprotectedHeader{}}
+			},
+			func() cose.Headers {
+				return cose.Headers{Protected: cose.ProtectedHeader{cose.HeaderLabelAlgorithm: cose.AlgorithmES256}}
+			},
+			func() cose.Headers { return cose.Headers{Protected: cose.ProtectedHeader{int64(4): []byte("kid")}} },
+			func() cose.Headers { return cose.Headers{Unprotected: cose.UnprotectedHeader{int64(4): []byte("kid")}} },
+		} {
+			for _, ext := range [][]byte{nil, {}, []byte("ext")} {
+				h := mk()
+				sg := &spySigner{alg: cose.AlgorithmES256, kind: SOk, sig: []byte{1, 2, 3}}
+				payload := []byte("payload")
+				var out []byte
+				var err error
+				untagged := entry == "UntaggedSign1Message.Sign" || entry == "Sign1Untagged"
+				switch entry {
+				case "Sign1Message.Sign":
+					m := &cose.Sign1Message{Headers: h, Payload: payload}
+					if err = m.Sign(nil, ext, sg); err == nil {
+						out, err = m.MarshalCBOR()
+					}
+				case "UntaggedSign1Message.Sign":
+					m := &cose.UntaggedSign1Message{Headers: h, Payload: payload}
+					if err = m.Sign(nil, ext, sg); err == nil {
+						out, err = m.MarshalCBOR()
+					}
+				case "Sign1":
+					out, err = cose.Sign1(nil, sg, h, payload, ext)
+				case "Sign1Untagged":
+					out, err = cose.Sign1Untagged(nil, sg, h, payload, ext)
+				}
+				c.Eval("entry-points/"+entry, fmt.Sprint(hi, ext == nil, len(ext)), true)
+				if err != nil || len(sg.calls) != 1 {
+					continue
+				}
+				rep := map[string]any{"entry": entry, "headers": hi, "ext": hx(ext), "out": hx(out)}
+				w, perr := refParseFull(out)
+				if perr != nil {
+					continue
+				}
+				body := w
+				if !untagged {
+					body = w.Kids[0]
+				}
+				if len(body.Kids) != 4 {
+					continue
+				}
+				if signed := tbsElement(sg.calls[0], 1); !bytes.Equal(signed, body.Kids[0].Ser()) {
+					c.Fail("C02/sign1-structure", fmt.Sprintf("%s: the signer was handed protected bytes %x, the serialised message carries %x", entry, signed, body.Kids[0].Ser()), rep)
+					continue
+				}
+				want := refArray(refTstr("Signature1"), refBstr(body.Kids[0].Str), refBstr(orEmpty(ext)), refBstr(payload))
+				if !bytes.Equal(want, sg.calls[0]) {
+					c.Fail("C02/sign1-structure", fmt.Sprintf("%s: signer got %x, the structure of the serialised message is %x", entry, sg.calls[0], want), rep)
+					continue
+				}
+				var back cose.Sign1Message
+				if untagged {
+					err = (*cose.UntaggedSign1Message)(&back).UnmarshalCBOR(out)
+				} else {
+					err = back.UnmarshalCBOR(out)
+				}
+				if err != nil {
+					continue
+				}
+				vf := &spyVerifier{alg: cose.AlgorithmES256}
+				if untagged {
+					err = (*cose.UntaggedSign1Message)(&back).Verify(ext, vf)
+				} else {
+					err = back.Verify(ext, vf)
+				}
+				if len(ext) > 0 || headerHasAlg(body.Kids[0].Str) {
+					if err != nil || len(vf.calls) != 1 || !bytes.Equal(vf.calls[0].content, sg.calls[0]) {
+						c.Fail("C02/verify1-structure", fmt.Sprintf("%s: after the wire round trip the verifier was handed %x (%v), the signer had signed %x", entry, vfirst(vf), err, sg.calls[0]), rep)
+					}
+				}
+			}
+		}
+	}
+	// ---- decoded COSE_Sign and COSE_Sign1 whose protected buckets have length prefixes wider than needed, presented to
+	// a verifier that refuses: the verifier is asked once per signature, with the RFC structure and nothing else ----
+	rnW := 20
+	if thorough {
+		rnW = 500
+	}
+	for i := 0; i < rnW; i++ {
+		alg := pick(r, goAlgs)
+		bp := wBstr(wMap(-1, wInt(4, -1), wBstr([]byte("body"), -1)).Ser(), -1)
+		sp := wBstr(wMap(-1, wInt(1, -1), wInt(int64(alg), -1)).Ser(), -1)
+		bp.Width = pick(r, widthsFor(uint64(len(bp.Str))))
+		sp.Width = pick(r, widthsFor(uint64(len(sp.Str))))
+		if i%5 == 0 {
+			bp = wBstr(nil, pick(r, []int{0, 1, 2, 4, 8}))
+		}
+		pl, ext := r.Bytes(r.Intn(30)), genGoExternal(r)
+		data := wTag(98, -1, wArr(-1, bp, wMap(-1), wBstr(pl, -1), wArr(-1, wArr(-1, sp, wMap(-1), wBstr([]byte{9, 9, 9}, -1))))).Ser()
+		var sm cose.SignMessage
+		if err := sm.UnmarshalCBOR(data); err != nil {
+			continue
+		}
+		want := refArray(refTstr("Signature"), refBstr(bp.Str), refBstr(sp.Str), refBstr(orEmpty(ext)), refBstr(pl))
+		for _, verr := range []error{cose.ErrVerification, errScripted, nil} {
+			vf := &spyVerifier{alg: alg, err: verr}
+			err := sm.Verify(ext, vf)
+			c.Eval("verifymsg/wide-prefix-refusing-verifier", fmt.Sprint(i, verr), true)
+			rep := map[string]any{"data": hx(data), "ext": hx(ext), "verifier_returns": fmt.Sprint(verr)}
+			if (err == nil) != (verr == nil) {
+				c.Fail("C02/signature-structure-decoded", fmt.Sprintf("COSE_Sign.Verify returned %v although the verifier returned %v", err, verr), rep)
+			}
+			if len(vf.calls) != 1 || !bytes.Equal(vf.calls[0].content, want) {
+				var got [][]byte
+				for _, cl := range vf.calls {
+					got = append(got, cl.content)
+				}
+				c.Fail("C02/signature-structure-decoded", fmt.Sprintf("the verifier was handed %x; the RFC structure (asked once) is %x", got, want), rep)
+			}
+			v2 := &spyVerifier{alg: alg, err: verr}
+			sm.Signatures[0].Verify(v2, bp.Ser(), pl, ext)
+			if len(v2.calls) != 1 || !bytes.Equal(v2.calls[0].content, want) {
+				c.Fail("C02/signature-structure-direct", fmt.Sprintf("Signature.Verify called directly: the verifier was asked %d times, first with %x; the RFC structure is %x", len(v2.calls), vfirst(v2), want), rep)
+			}
+		}
+		// COSE_Sign1 the same way
+		s1 := wTag(18, -1, wArr(-1, sp, wMap(-1), wBstr(pl, -1), wBstr([]byte{9, 9}, -1))).Ser()
+		var m1 cose.Sign1Message
+		if err := m1.UnmarshalCBOR(s1); err == nil {
+			want1 := refArray(refTstr("Signature1"), refBstr(sp.Str), refBstr(orEmpty(ext)), refBstr(pl))
+			for _, verr := range []error{cose.ErrVerification, errScripted} {
+				vf := &spyVerifier{alg: alg, err: verr}
+				m1.Verify(ext, vf)
+				if len(vf.calls) != 1 || !bytes.Equal(vf.calls[0].content, want1) {
+					c.Fail("C02/verify1-structure", fmt.Sprintf("a refusing verifier was asked %d times, first with %x; the RFC structure is %x", len(vf.calls), vfirst(vf), want1), map[string]any{"data": hx(s1), "ext": hx(ext)})
+				}
+			}
+		}
+	}
 	// ---- keys that use the library themselves before reading their input (a KMS adapter signing an audit
 	// record, a verifier checking a certificate chain of COSE objects): the bytes they finally read must
 	// still be the structure of the outer operation ----
@@ -444,4 +589,21 @@ func vfirst(v *spyVerifier) []byte {
 		return nil
 	}
 	return v.calls[0].content
+}
+
+// headerHasAlg: does the serialised protected map (content of the bstr) carry label 1?
+func headerHasAlg(content []byte) bool {
+	if len(content) == 0 {
+		return false
+	}
+	w, err := refParseFull(content)
+	if err != nil || w.Maj != 5 {
+		return false
+	}
+	for i := 0; i+1 < len(w.Kids); i += 2 {
+		if w.Kids[i].Maj == 0 && w.Kids[i].Val == 1 {
+			return true
+		}
+	}
+	return false
 }
